@@ -69,34 +69,19 @@ def step (st : St) : List String → St × String
     match st.sys with
     | none => (st, "no-init")
     | some s =>
-      -- D54 (open): every notification is sent from its own goroutine, so with two or more of them outstanding
-      -- the order in which the job receives them is up to the scheduler and cannot be forced from outside.
-      -- Both sides print the received ids as a multiset (sorted); in exactly that situation the line is tagged:
-      -- the property demands the start order.
+      -- the job receives the queued notifications in queue order (single announcer, D54 repair); the received
+      -- order is the observation
       let all := s.pub.notifs.flatten
-      let s' := s.pub.notifs.foldl (fun s _ => match Publish.step s (.deliver 0) with | some (s', _) => s' | none => s) s
-      let line := s!"notify {showNats (sortNats all)}"
-      ({ sys := some s' },
-       if s.pub.notifs.length ≥ 2 then s!"{line} #spec notify in-order {showNats all} #kf D54" else line)
+      let s' := s.pub.notifs.foldl (fun s _ => match Publish.step s .deliver with | some (s', _) => s' | none => s) s
+      ({ sys := some s' }, s!"notify {showNats all}")
   | ["crashwrite", n] =>
-    -- D60 (open), outside the proven model: `Publish.write` is atomic (true for an object store), but
-    -- `LocalDirectory.Write` creates the file and copies into it. If the job process is lost in the middle of the
-    -- write of checkpoint n, the cut-off file is the newest snapshot file and `LoadCheckpoint` fails on it (error or
-    -- panic): the job does not start any more. The property demands the newest completed checkpoint.
+    -- the job process is lost in the middle of `fileStore.Write` for checkpoint n. Writes are atomic (D60 repair:
+    -- temporary file + rename; `tmp_name_ignored`), so this is a `crash` while n's write has not happened.
     match st.sys with
     | none => (st, "no-init")
     | some s =>
       if (natOr n, false) ∈ s.pub.inflight then
-        if s.pub.files.all (· < natOr n) then
-          ({ sys := none }, s!"loaded error #spec loaded {showOpt (load s.pub.files)} #kf D60")
-        else
-          -- a newer complete snapshot file exists: the cut-off file has a lower id and is never picked
-          match Publish.step s (.write (natOr n)) with
-          | some (s1, _) =>
-            match Publish.step s1 .crash with
-            | some (s2, _) => ({ sys := some s2 }, s!"loaded {showOpt s2.pub.current}")
-            | none => (st, "model-error")
-          | none => (st, "model-error")
+        act st .crash (fun s _ => s!"loaded {showOpt s.pub.current}") "disabled"
       else (st, "disabled")
   | ["crash"] => act st .crash (fun s _ => s!"loaded {showOpt s.pub.current}") "disabled"
   | ["current"] =>
